@@ -1,20 +1,19 @@
 #!/bin/bash
 # Runs a check against a seeded change WITHOUT touching /repo: a scratch worktree of /repo gets
-# the patch, a scratch copy of /verif is pointed at it, and the check runs there.
-# usage: seeded.sh <patch.diff> <property> [tier]      (prints the check's output; exit = check's exit)
+# the patch, a scratch copy of /verif is pointed at it, and the check runs there. The scratch
+# slot (/tmp/seedrun/slot<N>) is reused between calls so that builds are incremental.
+# usage: seeded.sh <patch.diff> <property> [tier]        env: SLOT=<n> (default 0), VERIF_SEED
 set -u
 PATCH=$(readlink -f $1); PROP=$2; TIER=${3:-quick}
-TAG=$(echo "$PATCH" | md5sum | cut -c1-8)
-ROOT=/tmp/seedrun/$TAG
-rm -rf $ROOT; mkdir -p $ROOT
-git -C /repo worktree prune
-git -C /repo worktree add -q --detach $ROOT/repo HEAD || exit 2
-( cd $ROOT/repo && git apply $PATCH ) || { echo "PATCH DOES NOT APPLY"; git -C /repo worktree remove --force $ROOT/repo; exit 2; }
-rsync -a --exclude target --exclude .git --exclude replays --exclude evidence /verif/ $ROOT/verif/
+ROOT=/tmp/seedrun/slot${SLOT:-0}
+mkdir -p $ROOT
+HEAD=$(git -C /repo rev-parse HEAD)
+if [ ! -d $ROOT/repo ]; then git -C /repo worktree prune; git -C /repo worktree add -q --detach $ROOT/repo $HEAD || exit 2; fi
+( cd $ROOT/repo && git checkout -q -- . && git clean -fdq && git checkout -q --detach $HEAD ) || exit 2
+( cd $ROOT/repo && git apply $PATCH ) || { echo "PATCH DOES NOT APPLY"; exit 2; }
+rsync -a --delete --exclude target --exclude .git --exclude replays --exclude evidence --exclude seeded /verif/ $ROOT/verif/
 sed -i "s#/repo/#$ROOT/repo/#g" $ROOT/verif/sim/engines/Cargo.toml
 echo "$ROOT/repo" > $ROOT/verif/.repo_root
-# reuse compiled third-party dependencies where possible
 ( cd $ROOT/verif && VERIF_SEED=${VERIF_SEED:-1} ./check $PROP $TIER ); rc=$?
-git -C /repo worktree remove --force $ROOT/repo
-rm -rf $ROOT
+( cd $ROOT/repo && git checkout -q -- . && git clean -fdq )
 exit $rc
